@@ -41,7 +41,7 @@ theorem sidefiles_lag_drop_after_rename :
     (dropAfter 7 (putObjectProg { frames := [.ok [1]], hasMeta := true }) (initSt (some [0]) .old .old)).info = .old := by
   decide
 
-/-! ## repaired by 0932917: `complete-metadata-early:*` (F-fswrite-5 … F-fswrite-9)
+/-! ## repaired by 0096ef4: `complete-metadata-early:*` (F-fswrite-5 … F-fswrite-9)
 
 Before the repair `complete_multipart_upload` removed the upload record and overwrote the object's metadata file before it
 assembled the content; the former witnesses now satisfy the property (regression facts; the general statements are
@@ -93,7 +93,7 @@ theorem complete_sidefiles_lag_after_rename :
     run (completeProg { parts := [.present [1] true], hasMeta := true, metaFails := true }) (initSt (some [0]) .old .old) =
       (.internalError, { initSt (some [0]) .old .old with dest := some [1], acc := [1], dirs := true }) := by decide
 
-/-- cf67827 (the C19 side of F-fs-29 / F-fs-37): a completed upload without metadata over an object that has metadata and a
+/-- 47e9b00 (the C19 side of F-fs-29 / F-fs-37): a completed upload without metadata over an object that has metadata and a
     checksum record leaves neither — the metadata file is removed, the checksum record is a new (empty) one -/
 theorem complete_replaces_sidefiles :
     run (completeProg { parts := [.present [1] true] }) (initSt (some [0]) .old .old) =
